@@ -249,15 +249,49 @@ theorem seq_default_omitted (m : PTy) (ms : List PTy) (a : Attr) (as : List Attr
 /-- §19 without extension marker: preamble, then the root components -/
 theorem encUPER_seq_plain (root : List PTy) (rattrs : List Attr) (vs : List Val) (p b : Bits)
     (h : encRoot root rattrs vs = some (p, b, [])) :
-    encUPER (.seq root rattrs false []) (.seq vs) = some (p ++ b) := by
+    encUPER (.seq root rattrs false [] []) (.seq vs) = some (p ++ b) := by
   simp [encUPER, h, encAdds]
+
+/-- CANONICAL-PER §19.5 among the extension additions: an addition that equals its DEFAULT value is encoded
+    exactly like an absent one - no presence bit, no open type (finding F16, repaired: `SEQUENCE__handle_extensions`
+    now eliminates default values like the root loops of `SEQUENCE_encode_uper`) -/
+theorem seq_default_addition_omitted (m : PTy) (ms : List PTy) (a : Attr) (as : List Attr) (v : Val) (vs : List Val)
+    (hd : isDefault a v = true) :
+    encAdds (m :: ms) (a :: as) (v :: vs) = encAdds (m :: ms) (a :: as) (.absent :: vs) :=
+  encAdds_default m ms a as v vs hd
+
+/-- ... hence a SEQUENCE whose only stored addition holds its DEFAULT value is encoded without the extension bit
+    set; the former witness of F16, `T ::= SEQUENCE { a INTEGER, ..., b INTEGER DEFAULT 5 }`: { a 1, b 5 } and
+    { a 1 } both encode as 00 80 80 (unpatched C: 80 80 80 81 00 82 80 for the first) -/
+def exF16 : PTy :=
+  .seq [.integer ⟨none, none, false⟩] [⟨false, none, false⟩] true [.integer ⟨none, none, false⟩] [⟨true, some (.int 5), true⟩]
+
+theorem ref_F16_witness :
+    encUPERbytes exF16 (.seq [.int 1, .int 5]) = some [0x00, 0x80, 0x80] ∧
+    encUPERbytes exF16 (.seq [.int 1, .absent]) = some [0x00, 0x80, 0x80] ∧
+    encUPERbytes exF16 (.seq [.int 1, .int 6]) = some [0x80, 0x80, 0x80, 0x81, 0x00, 0x83, 0x00] := by
+  have h1 : ∀ v, encRoot [.integer ⟨none, none, false⟩] [⟨false, none, false⟩] [.int 1, v]
+      = some ([], unconstrainedWholeNumber 1, [v]) := by
+    intro v; simp [encRoot, encUPER, isDefault, encInt, intInRoot, encIntRoot]
+  have h5 : encAdds [.integer ⟨none, none, false⟩] [⟨true, some (.int 5), true⟩] [.int 5] = some ([false], []) := by
+    simp [encAdds, isDefault]
+  have ha : encAdds [.integer ⟨none, none, false⟩] [⟨true, some (.int 5), true⟩] [.absent] = some ([false], []) := by
+    simp [encAdds]
+  have h6 : encAdds [.integer ⟨none, none, false⟩] [⟨true, some (.int 5), true⟩] [.int 6]
+      = some ([true], openType (unconstrainedWholeNumber 6)) := by
+    simp [encAdds, isDefault, encUPER, encInt, intInRoot, encIntRoot]
+  refine ⟨?_, ?_, ?_⟩
+  · simp only [exF16, encUPERbytes, encUPER, h1, h5]; decide +kernel
+  · simp only [exF16, encUPERbytes, encUPER, h1, ha]; decide +kernel
+  · simp only [exF16, encUPERbytes, encUPER, h1, h6]; decide +kernel
 
 /-- §19.1 / §19.7–19.9 with extension marker: extension bit; when an addition is present: normally small
     length of the bitmap, the bitmap, then one open type per present addition -/
 theorem encUPER_seq_ext (root : List PTy) (rattrs : List Attr) (adds : List PTy) (vs rest : List Val)
     (p b ab : Bits) (bm : List Bool)
-    (h1 : encRoot root rattrs vs = some (p, b, rest)) (h2 : encAdds adds rest = some (bm, ab)) :
-    encUPER (.seq root rattrs true adds) (.seq vs) =
+    (aattrs : List Attr)
+    (h1 : encRoot root rattrs vs = some (p, b, rest)) (h2 : encAdds adds aattrs rest = some (bm, ab)) :
+    encUPER (.seq root rattrs true adds aattrs) (.seq vs) =
       some (if bm.any id then true :: (p ++ b ++ normallySmallLength bm.length ++ bm ++ ab)
             else false :: (p ++ b)) := by
   simp only [encUPER, h1, h2, if_true]
@@ -345,6 +379,7 @@ theorem canonicalOrder_wf (keys : List Tag) (root adds : List PTy) (ext : Bool) 
 example :
     let t := PTy.seq [.boolean, .integer ⟨some 0, some 7, false⟩] [⟨false, none, false⟩, ⟨true, none, false⟩] true
                [.null, .seqOf ⟨0, none, false⟩ (.choice [.boolean, .null] (canonicalOrder [⟨0, 1⟩, ⟨0, 5⟩]) false [])]
+               [⟨false, none, true⟩, ⟨false, none, true⟩]
     let v := Val.seq [.bool true, .absent, .null, .list [.choice 1 .null, .choice 0 (.bool false)]]
     wfP t = true ∧ canonV t v = true ∧ (encUPER t v).isSome = true := by
   refine ⟨?_, ?_, ?_⟩
